@@ -297,6 +297,12 @@ fn gen_c02(seed: u64, idx: usize, tier: Tier) -> GitScenario {
 }
 
 fn exec_c02(sc: &GitScenario) -> Outcome {
+    let mut out = exec_c02_inner(sc);
+    out.tolerate_loud_descriptor_exhaustion(sc.nofile.is_some());
+    out
+}
+
+fn exec_c02_inner(sc: &GitScenario) -> Outcome {
     let mut e = match start(sc, false) {
         Ok(e) => e,
         Err(x) => return Outcome::skip(&format!("world: {}", x)),
@@ -544,6 +550,12 @@ fn targets_of(base: &GitScenario, path: &str) -> BTreeSet<String> {
 }
 
 fn exec_c07(sc: &C07Scenario) -> Outcome {
+    let mut out = exec_c07_inner(sc);
+    out.tolerate_loud_descriptor_exhaustion(sc.base.nofile.is_some());
+    out
+}
+
+fn exec_c07_inner(sc: &C07Scenario) -> Outcome {
     let mut e = match start(&sc.base, true) {
         Ok(e) => e,
         Err(x) => return Outcome::skip(&format!("world: {}", x)),
@@ -827,6 +839,12 @@ fn gen_c19(seed: u64, idx: usize, _tier: Tier) -> GitScenario {
 }
 
 fn exec_c19(sc: &GitScenario) -> Outcome {
+    let mut out = exec_c19_inner(sc);
+    out.tolerate_loud_descriptor_exhaustion(sc.nofile.is_some());
+    out
+}
+
+fn exec_c19_inner(sc: &GitScenario) -> Outcome {
     let mut e = match start(sc, true) {
         Ok(e) => e,
         Err(x) => return Outcome::skip(&format!("world: {}", x)),
